@@ -23,6 +23,7 @@ import (
 
 func init() {
 	Register(&Scenario{
+		Pools: true,
 		Name:  "optparams",
 		Props: []string{"C16"},
 		Plan:  simple(150000, 20000000),
@@ -184,7 +185,9 @@ func genTripletSet(c *core.Chooser, distinct bool, big bool) []spec.Triplet {
 func runOptParams(r *core.Run) {
 	c := r.C
 	defer installReorder(r)()
-	switch c.Pick(4, 3, 4, 2, 2, 3) {
+	switch c.Pick(4, 3, 4, 2, 2, 3, 2) {
+	case 6:
+		optParseAddParse(r)
 	case 0:
 		optRoundTrip(r)
 	case 1:
@@ -598,6 +601,63 @@ func optThroughPDU(r *core.Run) {
 		if !ok {
 			r.Fail("C16", "fabricated", site, "param", "decoded tag %#x (%d octets) is not completely present in the truncated frame", g.Tag, len(g.Val))
 			return
+		}
+	}
+}
+
+// (g) history: a container obtained from a parse is the caller's; adding to it
+// must not show up in what a later parse of other bytes returns.
+func optParseAddParse(r *core.Run) {
+	c := r.C
+	first := joinTriplets(genTripletSet(c, true, false))
+	if c.Bool() {
+		first = nil // an empty optional part
+	}
+	second := joinTriplets(genTripletSet(c, true, false))
+	if c.Bool() {
+		second = nil
+	}
+	extraTag := uint16(0x2f00 + c.Intn(16))
+	extra := c.Blob(1+c.Intn(4), "any")
+	r.Probe("parse_add_parse")
+	r.Event("parse %d octets, add tag %#x, parse %d octets", len(first), extraTag, len(second))
+	want := lastWins(completePrefix(second))
+	type parser struct {
+		name string
+		f    func([]byte) map[uint16][]byte
+	}
+	parsers := []parser{
+		{"smgp.ReadOptions", func(b []byte) map[uint16][]byte {
+			o := smgp.ReadOptions(packet.NewPacketReader(append([]byte(nil), b...)))
+			o.Add(smgp.NewOption(smgp.Tag(extraTag), extra))
+			return optSet(smgp.ReadOptions(packet.NewPacketReader(append([]byte(nil), second...))))
+		}},
+		{"smgp.ParseOptions", func(b []byte) map[uint16][]byte {
+			o, _ := smgp.ParseOptions(append([]byte(nil), b...))
+			o.Add(smgp.NewOption(smgp.Tag(extraTag), extra))
+			o2, _ := smgp.ParseOptions(append([]byte(nil), second...))
+			return optSet(o2)
+		}},
+		{"smpp.ReadTLVs1", func(b []byte) map[uint16][]byte {
+			t := smpp.ReadTLVs1(packet.NewPacketReader(append([]byte(nil), b...)))
+			t.SetTLV(smpp.NewTLV(extraTag, extra))
+			return tlvSet(smpp.ReadTLVs1(packet.NewPacketReader(append([]byte(nil), second...))))
+		}},
+		{"smpp.ReadTLVs", func(b []byte) map[uint16][]byte {
+			t, _ := smpp.ReadTLVs(packet.NewPacketReader(append([]byte(nil), b...)))
+			t.SetTLV(smpp.NewTLV(extraTag, extra))
+			t2, _ := smpp.ReadTLVs(packet.NewPacketReader(append([]byte(nil), second...)))
+			return tlvSet(t2)
+		}},
+	}
+	for _, p := range parsers {
+		var got map[uint16][]byte
+		if pn := r.Call(p.name, func() { got = p.f(first) }); pn != nil {
+			r.Fail("C16", "panic", pn.Frame, pn.Kind, "%s / Add / %s: %s", p.name, p.name, pn.Value)
+			continue
+		}
+		if d := setDiff(want, got); d != "" {
+			r.Fail("C16", "fabricated", p.name, "after-add", "after adding tag %#x to the result of an earlier parse, parsing %d other octets reports: %s", extraTag, len(second), d)
 		}
 	}
 }
